@@ -359,7 +359,7 @@ theorem typed_var (v : RVar) (h : v.WFP) : mapR typedOf v.finalDims = .ok v.type
 theorem groupVars_catlike (dt : DT) (m : List Bool) (rest : List (DT × List Bool))
     (h : dt.isCatLike = true) :
     groupVars ((dt, m) :: rest)
-      = (groupVars rest).map (⟨⟨.cat, m.length, m, false⟩, false, []⟩ :: ·) := by
+      = (groupVars rest).map (⟨⟨.cat, m.length, m, false⟩, false, [], 0⟩ :: ·) := by
   cases rest with
   | nil => simp [groupVars, h]
   | cons p ps =>
@@ -368,17 +368,17 @@ theorem groupVars_catlike (dt : DT) (m : List Bool) (rest : List (DT × List Boo
 
 theorem groupVars_mr (m m2 : List Bool) (rest : List (DT × List Bool)) :
     groupVars ((.mrSubvar, m) :: (.mrCat, m2) :: rest)
-      = (groupVars rest).map (⟨⟨.arr, (validIdxs m).length, m2, true⟩, false, validIdxs m⟩ :: ·) := by
+      = (groupVars rest).map (⟨⟨.arr, (validIdxs m).length, m2, true⟩, false, validIdxs m, m.length⟩ :: ·) := by
   simp [groupVars]
 
 theorem groupVars_ca (m m2 : List Bool) (rest : List (DT × List Bool)) :
     groupVars ((.caSubvar, m) :: (.caCat, m2) :: rest)
-      = (groupVars rest).map (⟨⟨.arr, (validIdxs m).length, m2, false⟩, false, validIdxs m⟩ :: ·) := by
+      = (groupVars rest).map (⟨⟨.arr, (validIdxs m).length, m2, false⟩, false, validIdxs m, m.length⟩ :: ·) := by
   simp [groupVars]
 
 theorem groupVars_caT (m m2 : List Bool) (rest : List (DT × List Bool)) :
     groupVars ((.caCat, m) :: (.caSubvar, m2) :: rest)
-      = (groupVars rest).map (⟨⟨.arr, (validIdxs m2).length, m, false⟩, true, validIdxs m2⟩ :: ·) := by
+      = (groupVars rest).map (⟨⟨.arr, (validIdxs m2).length, m, false⟩, true, validIdxs m2, m2.length⟩ :: ·) := by
   simp [groupVars]
 
 theorem groupVars_var (v : RVar) (rest : List (DT × List Bool)) :
@@ -391,8 +391,8 @@ theorem groupVars_var (v : RVar) (rest : List (DT × List Bool)) :
   · simp only [List.cons_append, List.nil_append]; rw [groupVars_catlike _ _ _ rfl]; simp [RVar.elemFlags]
   · simp only [List.cons_append, List.nil_append]; rw [groupVars_catlike _ _ _ rfl]; simp [RVar.elemFlags]
   · simp only [List.cons_append, List.nil_append]; rw [groupVars_catlike _ _ _ rfl]; simp [RVar.elemFlags]
-  · simp [groupVars_mr]
-  · cases v.transposed <;> simp [groupVars_ca, groupVars_caT]
+  · simp [groupVars_mr, RVar.itemFlags]
+  · cases v.transposed <;> simp [groupVars_ca, groupVars_caT, RVar.itemFlags]
 
 theorem groupVars_typed (vars : List RVar) :
     groupVars (vars.flatMap RVar.typed) = some (designOf vars) := by
